@@ -29,6 +29,8 @@ def gen_cases(tier, seed):
         c["storage"] = ["plain", "plain", "strided", "transposed", "shared-base"][n % 5]
         c["single_req"] = (n // 3) % 4 if (c["form"] == "functional" and n % 3 == 2) else None
         c["twice"] = bool(n % 4 == 1 and c["op"] != "dropout")
+        if c["op"] in ("bce_loss", "bce_with_logits", "mse_loss") and n % 5 == 3:
+            c["int_operands"] = {"1": ["int64", "bool", "int32", "uint8"][n % 4]}          # hard 0/1 labels as an integer / bool tensor
         out.append(c)
         if c["op"] in ("sigmoid", "tanh", "selu", "softmax", "log_softmax", "bce_with_logits", "cross_entropy") and n % 3 == 1:
             c3 = copy.deepcopy(c); c3["a"]["vclass"] = "huge"; c3["storage"] = "plain"      # saturating magnitudes (|x| up to 800)
